@@ -42,6 +42,10 @@ def _pattern_strategy():
         st.tuples(frag, frag).map(lambda t: t[0] + r'\.' + t[1]),
         st.tuples(frag, frag).map(lambda t: t[0] + '.' + t[1]),
         st.sampled_from([r'\d', r'\.\d+$', r'^\d+$', r'^$', r'(?i)LINEAR', r'[A-Z]', r'^[a-z_0-9.]+$', r'block\.\d\.fc', r'(fc|head)\d?$', '']),
+        # patterns whose meaning depends on being compiled on their own: inline flags, group numbering, named groups
+        st.sampled_from([r'(?i)LINEAR', r'(?i)conv2D', r'(?i)^FC', r'(?x) fc \d', r'(fc)\d?\.\1', r'(\d)\.\1', r'(?P<n>head)', r'(?P<n>fc)', r'(?s)a.b',
+                         r'(m)(\d)\.\1\2', r'(?i)my']),
+        st.sampled_from([r'(?i)LINEAR', r'(?i)conv2D', r'(fc)\d?\.\1', r'(\d)\.\1', r'(?P<n>head)', r'(?P<n>fc)', r'(m)(\d)\.\1\2']),
     )
 
 
